@@ -29,7 +29,8 @@ Empty == [scen |-> "", engine |-> "", srcs |-> {}, feats |-> {}, maxRetries |-> 
           stopArmed |-> FALSE,    \* a stop call was issued while the pipeline was reported running, with a live
                                   \* run and no start in flight, and nothing has happened to the run since
           recPending |-> FALSE,   \* status Recovering was written and the recovery restart has not opened the source yet
-          restartCheck |-> FALSE, storeFaults |-> FALSE, bad |-> FALSE]
+          restartCheck |-> FALSE, storeFaults |-> FALSE, bad |-> FALSE,
+          statusWriteFailed |-> FALSE]   \* an injected store fault hit a write of the pipeline's status
 
 Init == l = 1 /\ st = Empty /\ viol = {}
 \* what is rendered as a string: the records of one scenario form a set, and TLC cannot compare values of different types
@@ -148,7 +149,7 @@ Teardown ==
              ELSE [st EXCEPT !.stopArmed = FALSE]
   /\ UNCHANGED viol
 
-RestartCheck == IsEvent("RestartCheck") /\ st' = [st EXCEPT !.restartCheck = TRUE] /\ UNCHANGED viol
+RestartCheck == IsEvent("RestartCheck") /\ st' = [st EXCEPT !.restartCheck = TRUE, !.statusWriteFailed = FALSE] /\ UNCHANGED viol
 
 AllDown == \A k \in DOMAIN st.live : st.live[k] = 0
 
@@ -160,8 +161,10 @@ End ==
        \cup Add(~(Ev.status \in {"Running", "Recovering"} /\ AllDown /\ st.startCalls > 0), "StatusAgrees",
                 <<Ev.status, "all plugins torn down">>)
        \* ... and so does the STORED status (what a restarted server would find): the last durable status write
-       \cup Add(~(st.status \in {Running, Recovering} /\ AllDown /\ st.startCalls > 0), "StatusAgrees",
-                <<"stored status", st.status, "reported", Ev.status, "all plugins torn down">>)
+       \* (when the store refused a status write the stored status cannot follow: not judged then)
+       \cup (IF st.statusWriteFailed THEN {}
+             ELSE Add(~(st.status \in {Running, Recovering} /\ AllDown /\ st.startCalls > 0), "StatusAgrees",
+                      <<"stored status", st.status, "reported", Ev.status, "all plugins torn down">>))
        \cup Add(~(Ev.status \notin {"Running", "Recovering"}) \/ AllDown, "ReleasedAfterEnd", Ev.status)
        \* C10/C12 expectations declared by the scenario
        \cup (IF "expect-fatal" \in st.feats /\ ~st.restartCheck
@@ -191,7 +194,9 @@ End ==
 
 Hang  == IsEvent("Hang")  /\ viol' = viol \cup {V("NoHang", Ev.call)} /\ UNCHANGED st
 Panic == IsEvent("Panic") /\ viol' = viol \cup {V("NoPanic", Ev.stderr)} /\ UNCHANGED st
-Fault == IsEvent("Fault") /\ st' = [st EXCEPT !.stopArmed = FALSE] /\ UNCHANGED viol
+Fault == IsEvent("Fault") /\ UNCHANGED viol
+         /\ st' = [st EXCEPT !.stopArmed = FALSE,
+                             !.statusWriteFailed = @ \/ (Ev.what = "store-set" /\ "key" \in DOMAIN Ev /\ Ev.key = "pipeline:instance:pl")]
 Restore == IsEvent("Restore") /\ st' = [st EXCEPT !.live = <<>>] /\ UNCHANGED viol
 HarnessError == (IsEvent("HarnessError") \/ IsEvent("ChildTimeout")) /\ st' = [st EXCEPT !.bad = TRUE] /\ UNCHANGED viol
 Other == l <= Len(Trace) /\ Ev.ev \notin Known /\ l' = l + 1 /\ UNCHANGED <<st, viol>>
